@@ -175,7 +175,7 @@ def presentation_variants(ctx, fn_ents=None, hist_ents=None, modes=None, ncases=
 WIDE_KEYS = ("num_classes", "num_labels", "num_tasks", "num_queries", "C")
 
 
-def wide_corr(ctx, ents, values=(129, 130, 257), ncases=None, sizes=(2, 5, 9)):
+def wide_corr(ctx, ents, values=(129, 130, 257), ncases=None, sizes=(2, 5, 9), variants=()):
     """More than 128 / 256 classes, labels, tasks or queries (blocked / chunked implementations take another path there):
     the same functional correspondence on configurations whose slice count is 129, 130 or 257."""
     import copy
@@ -209,4 +209,7 @@ def wide_corr(ctx, ents, values=(129, 130, 257), ncases=None, sizes=(2, 5, 9)):
     if wide:
         fn_corr(ctx, ents=wide, name="functional-correspondence [129 / 130 / 257 classes, labels, tasks or queries]",
                 ncases=ncases or ctx.n(6, 36), sizes=sizes, suffix="[wide]")
+        for mode in variants:        # many slices AND a narrow label dtype (index arithmetic in the label dtype wraps)
+            fn_corr(ctx, ents=wide, name=f"functional-correspondence [129 / 130 / 257 slices, {mode}]",
+                    ncases=max(3, (ncases or ctx.n(6, 36)) // 2), sizes=sizes, suffix="[wide]", variant=mode)
     ctx.notes.append("wide configurations: " + ", ".join(w.name for w in wide))
